@@ -8,7 +8,7 @@ let xcheck_oc = lazy (match Sys.getenv_opt "VERIF_XCHECK" with
     | Some p when p <> "" -> Some (open_out_gen [Open_append; Open_creat] 0o644 p)
     | _ -> None)
 let xcheck_count = ref 0
-let xcheck_max = 8
+let xcheck_max = 4
 let coq_nat n = Printf.sprintf "%d%%nat" (int_of_nat n)
 let coq_qc (x : qc) : string =
   let q = this x in Printf.sprintf "(Q2Qc (Qmake (%s)%%Z %s%%positive))" (string_of_z q.qnum) (string_of_pos q.qden)
@@ -26,7 +26,7 @@ let coq_tres = function Equal -> "Equal" | Differ x -> "(Differ " ^ coq_vec x ^ 
 let tree_equiv_x (n : nat) (t1 : ptree) (t2 : ptree) : tres =
   let r = tree_equiv n [] t1 t2 in
   (match Lazy.force xcheck_oc with
-   | Some oc when !xcheck_count < xcheck_max && ptree_nodes t1 + ptree_nodes t2 <= 40 ->
+   | Some oc when !xcheck_count < xcheck_max && ptree_nodes t1 + ptree_nodes t2 <= 24 ->
      incr xcheck_count;
      Printf.fprintf oc "Example xcheck_%d_%d : tres_eqb (tree_equiv %s [] %s %s) %s = true.\nProof. vm_compute. reflexivity. Qed.\n"
        0 !xcheck_count (coq_nat n) (coq_ptree t1) (coq_ptree t2) (coq_tres r);
